@@ -2,6 +2,7 @@
 import os, json
 from harness import tlc, engine
 from harness.common import Machinery, workdir, write_ndjson
+from checks import c02_driver
 
 ML_CFG = """CONSTANTS M = %d
  SLOT = 1
@@ -22,6 +23,7 @@ CHECK_DEADLOCK FALSE
 ENUM_CFG = "INIT EnumInit\nNEXT EnumNext\nCONSTRAINT EnumEmit\nCHECK_DEADLOCK FALSE\n"
 JUDGE_CFG = "INIT JudgeInit\nNEXT JudgeNext\nCHECK_DEADLOCK FALSE\n"
 JSVM_CFG = "SPECIFICATION Spec\nCONSTRAINT Report\nCHECK_DEADLOCK FALSE\n"
+TRACE_CFG = "SPECIFICATION Spec\nCONSTRAINT Report\nINVARIANT ShadowSane\nCHECK_DEADLOCK FALSE\n"
 BODY_M = 15000          # bytes: 150 operands or 75 frames; one leaked operand per iteration exhausts it at N = 200
 
 
@@ -113,6 +115,38 @@ def run(rep):
                 rep.mismatch(name, {"verdict": v["v"], "outcome": r["o"], "info": r["info"], "levels": r["levels"]})
             elif c["s"] in ("forEach", "self") and len(rep.samples) < 6:
                 rep.sample({"shape": name, "outcome": r["o"], "levels": r["levels"]})
+    # 5. trace validation: every instruction the engine executed for every body (N = 2) against JsVM_Trace
+    tcases = [{"id": "t:" + bname(c["b"]), "src": c02_driver.render_program(c["b"], 2)} for c in bodies]
+    tres = engine.run_cases(rep.pid, tcases, driver="checks.trace_driver:driver", tag="traces", timeout=3000)
+    traces = [{"id": r["id"], "ev": r["ev"], "end": r["end"]} for r in tres if r["ev"] and not r["over"]]
+    if len(traces) < len(tcases) * 0.9:
+        raise Machinery("too many traces truncated: %d of %d usable" % (len(traces), len(tcases)))
+    # binding self-test: a corrupted depth, a corrupted target and a dropped event must each be rejected
+    base = next(t for t in traces if len(t["ev"]) > 40)
+    muts = []
+    for tag, fn in (("sl", lambda ev: ev[20].__setitem__("sl", ev[20]["sl"] + 1)), ("at", lambda ev: ev[21].__setitem__("at", ev[21]["at"] + 1)),
+                    ("drop", lambda ev: ev.__delitem__(22))):
+        m = json.loads(json.dumps(base))
+        fn(m["ev"])
+        m["id"] = "selftest:" + tag
+        muts.append(m)
+    tv, st, tr, _ = tlc.judge(rep.pid, "JsVM_Trace", traces + muts, TRACE_CFG, shards=8, tag="trace_judge")
+    rep.add_judge(len(traces), st, tr)
+    rep.notes["trace_events"] = sum(len(t["ev"]) for t in traces)
+    seen_ids = set()
+    for v in tv:
+        if v["id"] in seen_ids:
+            continue
+        seen_ids.add(v["id"])
+        if v["id"].startswith("selftest:"):
+            if v["ok"]:
+                raise Machinery("trace specification accepted a corrupted trace (%s): binding is vacuous" % v["id"])
+            continue
+        if not v["ok"]:
+            src = next(t["src"] for t in tcases if t["id"] == v["id"])
+            rep.mismatch(v["id"], {"verdict": "trace rejected", "clause": v["why"], "src": src})
+    if not any(i.startswith("selftest:") for i in seen_ids):
+        raise Machinery("self-test traces were not judged")
     # a static inconsistency is a violation only when a real run confirms it; otherwise it is listed (DESIGN C02)
     only_static = sorted(set(static_bad) - dyn_bad)
     rep.notes["static_only"] = [{"body": n, "why": static_bad[n]["why"], "ip": static_bad[n]["ip"]} for n in only_static][:50]
